@@ -770,6 +770,16 @@ func c18SlotsStable(c *core.Ctx) {
 			case *ssa.Call:
 				if b, isB := v.Call.Value.(*ssa.Builtin); isB && b.Name() == "append" && len(v.Call.Args) >= 1 && loadOfTxs(v.Call.Args[0]) {
 					ok = true
+				} else if isB && b.Name() == "append" && len(v.Call.Args) == 2 && loadOfTxs(v.Call.Args[1]) {
+					// growth written as append(make(T, 0, cap), pool.txs...): a whole copy, every slot keeps its number
+					if mk, isMk := v.Call.Args[0].(*ssa.MakeSlice); isMk {
+						if n, isC := core.IntConstVal(mk.Len); isC && n == 0 {
+							ok = true
+						}
+					}
+					if !ok {
+						why = "the current list is appended to something that is not an empty fresh list"
+					}
 				} else {
 					why = "the stored list is the result of a call that is not append(pool.txs, …)"
 				}
